@@ -208,121 +208,183 @@ Proof.
     cbn [skipn] in H. destruct (IH l' x r H) as [H1 H2]. split; [exact H1|exact H2].
 Qed.
 
+Definition brk_of (p : option ascii) : bool := match p with Some _ => true | None => false end.
+
+(** What the loop knows about a consumed line break: it is a fold byte and the previous line is line [k] of the file. *)
+Definition pend_ok (lines : list string) (k : nat) (prev : Z) (pending : option ascii) : Prop :=
+  forall c, pending = Some c ->
+    is_fold_char c = true /\
+    exists pl, (1 <= k)%nat /\ nth_error lines (k - 1) = Some pl /\ prev = slen pl.
+
+(** The optional line-break position at the top of the loop body. *)
+Lemma reads_break lines k prev pending offs pre :
+  reads lines offs pre ->
+  pend_ok lines k prev pending ->
+  reads lines (if brk_of pending then append_position offs (Z.of_nat k + 1 - 1) (prev + 1) else offs)
+        (pre ++ pend_str pending)%string.
+Proof.
+  intros Hr Hp. destruct pending as [c|]; cbn [brk_of pend_str].
+  - destruct (Hp c eq_refl) as [Hfc [pl [Hk [Hpl Hprev]]]].
+    apply reads_append with (f := newline).
+    + exact Hr.
+    + subst prev. apply char_at_line_break; [lia|].
+      replace (Z.to_nat (Z.of_nat k + 1 - 1 - 1)) with (k - 1)%nat by lia. exact Hpl.
+    + apply is_fold_char_fold. exact Hfc.
+  - rewrite sapp_nil_r. exact Hr.
+Qed.
+
+(** One iteration up to NEXT: the scan only adds positions that read the value bytes it consumes. *)
+Lemma line_step_sound lines k line col need rest offs pre :
+  nth_error lines k = Some line ->
+  reads lines offs pre ->
+  match line_step line (Z.of_nat k + 1) col need rest offs with
+  | None => True
+  | Some (ScanDone o) => o <> [] /\ reads lines o (pre ++ String need rest)
+  | Some (ScanCont n r o) =>
+      exists mstr, (String need rest = mstr ++ String n r)%string /\ reads lines o (pre ++ mstr)
+  end.
+Proof.
+  intros Hnth Hr. unfold line_step.
+  destruct (slen line =? 0).
+  - exists EmptyString. split; [reflexivity|]. rewrite sapp_nil_r. exact Hr.
+  - destruct (adjust_col line col need rest) as [col2|] eqn:Eadj; [|exact I].
+    pose proof (adjust_col_ge1 _ _ _ _ _ Eadj) as Hc2.
+    assert (Hnth' : nth_error lines (Z.to_nat (Z.of_nat k + 1 - 1)) = Some line)
+      by (replace (Z.to_nat (Z.of_nat k + 1 - 1)) with k by lia; exact Hnth).
+    pose proof (scan_line_spec (sdrop (Z.to_nat (col2 - 1)) line) lines line (Z.of_nat k + 1) col2 need rest
+                               offs pre ltac:(lia) Hc2 Hnth' eq_refl Hr) as Hscan.
+    destruct (gscan (sdrop (Z.to_nat (col2 - 1)) line) need rest) as [m [[n r]|]] eqn:G;
+      destruct (scan_line (sdrop (Z.to_nat (col2 - 1)) line) (Z.of_nat k + 1) col2 need rest offs) as [o|n4 r4 o] eqn:S;
+      try contradiction.
+    + destruct Hscan as [E1 [E2 [_ [_ Hex]]]]. subst n4 r4. exact Hex.
+    + exact Hscan.
+Qed.
+
+(** ** Soundness, unconditionally: whatever the layout, the positions read back a PREFIX of the value (up to
+    folding).  Nothing that is not a byte of the value, in order, ever gets a position. *)
+Lemma npr_loop_sound : forall ls lines k prev col minCol pending need rest offs pre o,
+  skipn k lines = ls ->
+  reads lines offs pre ->
+  pend_ok lines k prev pending ->
+  npr_loop ls prev (Z.of_nat k + 1) col minCol need rest offs (brk_of pending) = Ok o ->
+  exists done_ left_,
+    (pre ++ pend_str pending ++ String need rest = done_ ++ left_)%string /\ reads lines o done_.
+Proof.
+  induction ls as [|line more IH]; intros lines k prev col minCol pending need rest offs pre o Hsk Hr Hp Hrun.
+  - cbn [npr_loop] in Hrun. injection Hrun as <-.
+    exists pre, (pend_str pending ++ String need rest)%string. split; [reflexivity|exact Hr].
+  - destruct (skipn_cons_nth _ _ _ _ Hsk) as [Hnth Hsk'].
+    cbn [npr_loop] in Hrun.
+    pose proof (reads_break lines k prev pending offs pre Hr Hp) as Hr1.
+    set (offs1 := if brk_of pending then append_position offs (Z.of_nat k + 1 - 1) (prev + 1) else offs) in *.
+    pose proof (line_step_sound lines k line col need rest offs1 _ Hnth Hr1) as Hstep.
+    destruct (line_step line (Z.of_nat k + 1) col need rest offs1) as [[o1|n r o1]|]; [| |discriminate].
+    + injection Hrun as <-. destruct Hstep as [_ Hro].
+      exists ((pre ++ pend_str pending) ++ String need rest)%string, EmptyString.
+      split; [rewrite sapp_nil_r, sapp_assoc; reflexivity|exact Hro].
+    + destruct Hstep as [mstr [Hm Hro]].
+      unfold advance in Hrun.
+      destruct (is_fold_char n) eqn:Ef.
+      * destruct r as [|n' r'].
+        -- injection Hrun as <-.
+           exists ((pre ++ pend_str pending) ++ mstr)%string, (String n EmptyString).
+           split; [|exact Hro]. rewrite Hm. rewrite !sapp_assoc. reflexivity.
+        -- replace (Z.of_nat k + 1 + 1) with (Z.of_nat (S k) + 1) in Hrun by lia.
+           change true with (brk_of (Some n)) in Hrun.
+           destruct (IH lines (S k) (slen line) minCol minCol (Some n) n' r' o1
+                        ((pre ++ pend_str pending) ++ mstr)%string o Hsk' Hro) as [d [l [Hdl Hrd]]].
+           ++ intros c Hc. inversion Hc; subst c. split; [exact Ef|].
+              exists line. repeat split; [lia|]. replace (S k - 1)%nat with k by lia. exact Hnth.
+           ++ exact Hrun.
+           ++ exists d, l. split; [|exact Hrd]. rewrite <- Hdl. rewrite Hm. cbn [pend_str].
+              rewrite !sapp_assoc. reflexivity.
+      * replace (Z.of_nat k + 1 + 1) with (Z.of_nat (S k) + 1) in Hrun by lia.
+        change false with (brk_of None) in Hrun.
+        destruct (IH lines (S k) (slen line) minCol minCol None n r o1
+                     ((pre ++ pend_str pending) ++ mstr)%string o Hsk' Hro) as [d [l [Hdl Hrd]]].
+        -- intros c Hc. discriminate.
+        -- exact Hrun.
+        -- exists d, l. split; [|exact Hrd]. rewrite <- Hdl. rewrite Hm. cbn [pend_str].
+           rewrite !sapp_assoc. reflexivity.
+Qed.
+
+(** ** Completeness under the guard: the matcher exhausts the value up to trailing line breaks. *)
 Lemma npr_loop_spec : forall ls lines k prev col minCol pending need rest offs pre,
   skipn k lines = ls ->
   lay_ok ls col minCol pending need rest = true ->
   reads lines offs pre ->
-  (pending = None -> offs = []) ->
-  (forall c, pending = Some c ->
-     is_fold_char c = true /\ offs <> [] /\
-     exists pl, (1 <= k)%nat /\ nth_error lines (k - 1) = Some pl /\ prev = slen pl) ->
-  exists o, npr_loop ls prev (Z.of_nat k + 1) col minCol need rest offs = Ok o /\
-            o <> [] /\ wf o /\
+  pend_ok lines k prev pending ->
+  exists o, npr_loop ls prev (Z.of_nat k + 1) col minCol need rest offs (brk_of pending) = Ok o /\
+            wf o /\
             exists rb, read_back lines o = Some rb /\
                        spell_match rb (pre ++ pend_str pending ++ String need rest) = true.
 Proof.
-  induction ls as [|line more IH]; intros lines k prev col minCol pending need rest offs pre Hsk Hok Hr Hnone Hsome.
+  induction ls as [|line more IH]; intros lines k prev col minCol pending need rest offs pre Hsk Hok Hr Hp.
   - (* the lines ran out *)
-    cbn [lay_ok] in Hok. destruct pending as [c|]; [|discriminate].
-    apply andb_true_iff in Hok. destruct Hok as [Hc Hall].
-    apply Ascii.eqb_eq in Hc. subst c.
-    destruct (Hsome newline eq_refl) as [_ [Hne _]].
+    cbn [lay_ok] in Hok. apply andb_true_iff in Hok. destruct Hok as [Hc Hall].
     exists offs. cbn [npr_loop]. destruct Hr as [Hwf [rb [Hrb Hfe]]].
-    repeat split; [exact Hne|exact Hwf|].
-    exists rb. split; [exact Hrb|].
-    apply spell_match_app; [exact Hfe|]. cbn [pend_str append all_newlines].
-    rewrite Ascii.eqb_refl. exact Hall.
+    repeat split; [exact Hwf|]. exists rb. split; [exact Hrb|].
+    apply spell_match_app; [exact Hfe|].
+    destruct pending as [c|]; cbn [pend_str append].
+    + apply Ascii.eqb_eq in Hc. subst c. cbn [all_newlines]. rewrite Ascii.eqb_refl. exact Hall.
+    + exact Hall.
   - destruct (skipn_cons_nth _ _ _ _ Hsk) as [Hnth Hsk'].
-    (* the line-break position of the previous line *)
-    set (offs1 := match offs with [] => offs | _ => append_position offs (Z.of_nat k + 1 - 1) (prev + 1) end).
-    assert (Hr1 : reads lines offs1 (pre ++ pend_str pending)%string /\ (pending = None -> offs1 = []) /\
-                  (pending <> None -> offs1 <> [])).
-    { destruct pending as [c|].
-      - destruct (Hsome c eq_refl) as [Hfc [Hne [pl [Hk [Hpl Hprev]]]]].
-        assert (offs1 = append_position offs (Z.of_nat k + 1 - 1) (prev + 1))
-          by (unfold offs1; destruct offs; [contradiction|reflexivity]).
-        rewrite H. split; [|split].
-        + apply reads_append with (f := newline).
-          * exact Hr.
-          * subst prev. apply char_at_line_break; [lia|].
-            replace (Z.to_nat (Z.of_nat k + 1 - 1 - 1)) with (k - 1)%nat by lia. exact Hpl.
-          * apply is_fold_char_fold. exact Hfc.
-        + discriminate.
-        + intros _. apply append_position_nonempty.
-      - pose proof (Hnone eq_refl) as Ho. unfold offs1. rewrite Ho. rewrite Ho in Hr.
-        cbn [pend_str]. rewrite sapp_nil_r.
-        split; [exact Hr|split; [reflexivity|congruence]]. }
-    destruct Hr1 as [Hr1 [Hn1 Hs1]].
-    cbn [npr_loop]. fold offs1.
+    cbn [npr_loop].
+    pose proof (reads_break lines k prev pending offs pre Hr Hp) as Hr1.
+    set (offs1 := if brk_of pending then append_position offs (Z.of_nat k + 1 - 1) (prev + 1) else offs) in *.
     cbn [lay_ok] in Hok.
     unfold line_step.
     assert (Hnth' : nth_error lines (Z.to_nat (Z.of_nat k + 1 - 1)) = Some line)
       by (replace (Z.to_nat (Z.of_nat k + 1 - 1)) with k by lia; exact Hnth).
     (* common continuation after the scan *)
-    assert (Hcont : forall m n r o,
-      (m = false -> o = offs1 /\ n = need /\ r = rest) ->
-      (m = true -> o <> []) ->
+    assert (Hcont : forall n r o,
       (exists mstr, (String need rest = mstr ++ String n r)%string /\
                     reads lines o ((pre ++ pend_str pending) ++ mstr)%string) ->
-      (let started := match pending with Some _ => true | None => m end in
-       if is_fold_char n
-       then started && match r with
-                       | EmptyString => Ascii.eqb n newline
-                       | String n' r' => lay_ok more minCol minCol (Some n) n' r'
-                       end
-       else negb started && lay_ok more minCol minCol None n r) = true ->
+      (if is_fold_char n
+       then match r with
+            | EmptyString => Ascii.eqb n newline
+            | String n' r' => lay_ok more minCol minCol (Some n) n' r'
+            end
+       else lay_ok more minCol minCol None n r) = true ->
       exists o', match advance n r with
                  | None => Ok o
-                 | Some (n', r') => npr_loop more (slen line) (Z.of_nat k + 1 + 1) minCol minCol n' r' o
-                 end = Ok o' /\ o' <> [] /\ wf o' /\
+                 | Some (n', r') => npr_loop more (slen line) (Z.of_nat k + 1 + 1) minCol minCol n' r' o (is_fold_char n)
+                 end = Ok o' /\ wf o' /\
                  exists rb, read_back lines o' = Some rb /\
                             spell_match rb (pre ++ pend_str pending ++ String need rest) = true).
-    { intros m n r o Hmf Hmt [mstr [Hm Hro]] Hg.
-      cbv zeta in Hg. unfold advance.
-      assert (Hone : o <> [] \/ (pending = None /\ m = false)).
-      { destruct m; [left; apply Hmt; reflexivity|].
-        destruct pending as [c|]; [left|right; split; reflexivity].
-        destruct (Hmf eq_refl) as [Ho _]. rewrite Ho. apply Hs1. discriminate. }
+    { intros n r o [mstr [Hm Hro]] Hg.
+      unfold advance.
       destruct (is_fold_char n) eqn:Ef.
-      - apply andb_true_iff in Hg. destruct Hg as [Hst Hg].
-        assert (Hone' : o <> []).
-        { destruct Hone as [H|[H1 H2]]; [exact H|]. subst pending m. discriminate. }
-        destruct r as [|n' r'].
+      - destruct r as [|n' r'].
         + apply Ascii.eqb_eq in Hg. subst n.
           exists o. destruct Hro as [Hwf [rb [Hrb Hfe]]].
-          repeat split; [exact Hone'|exact Hwf|].
+          repeat split; [exact Hwf|].
           exists rb. split; [exact Hrb|].
           rewrite Hm. rewrite <- !sapp_assoc.
           apply spell_match_app; [rewrite sapp_assoc; rewrite sapp_assoc in Hfe; exact Hfe|].
           cbn. reflexivity.
         + replace (Z.of_nat k + 1 + 1) with (Z.of_nat (S k) + 1) by lia.
+          change true with (brk_of (Some n)).
           destruct (IH lines (S k) (slen line) minCol minCol (Some n) n' r' o
-                       ((pre ++ pend_str pending) ++ mstr)%string Hsk' Hg Hro) as [o' [Ho' [Hne' [Hwf' [rb [Hrb Hsp]]]]]].
-          * discriminate.
-          * intros c Hc. inversion Hc; subst c. repeat split; [exact Ef|exact Hone'|].
+                       ((pre ++ pend_str pending) ++ mstr)%string Hsk' Hg Hro) as [o' [Ho' [Hwf' [rb [Hrb Hsp]]]]].
+          * intros c Hc. inversion Hc; subst c. split; [exact Ef|].
             exists line. repeat split; [lia|].
             replace (S k - 1)%nat with k by lia. exact Hnth.
-          * exists o'. repeat split; [exact Ho'|exact Hne'|exact Hwf'|].
+          * exists o'. repeat split; [exact Ho'|exact Hwf'|].
             exists rb. split; [exact Hrb|].
             rewrite Hm. cbn [pend_str] in Hsp.
             rewrite !sapp_assoc in Hsp. exact Hsp.
-      - apply andb_true_iff in Hg. destruct Hg as [Hst Hg].
-        apply negb_true_iff in Hst.
-        destruct pending as [c|]; [discriminate|]. subst m.
-        destruct (Hmf eq_refl) as [Ho [En Er]]. subst n r.
-        rewrite (Hn1 eq_refl) in Ho. subst o.
-        replace (Z.of_nat k + 1 + 1) with (Z.of_nat (S k) + 1) by lia.
-        destruct (IH lines (S k) (slen line) minCol minCol None need rest [] pre Hsk' Hg) as [o' [Ho' [Hne' [Hwf' [rb [Hrb Hsp]]]]]].
-        + rewrite (Hnone eq_refl) in Hr. exact Hr.
-        + reflexivity.
+      - replace (Z.of_nat k + 1 + 1) with (Z.of_nat (S k) + 1) by lia.
+        change false with (brk_of None).
+        destruct (IH lines (S k) (slen line) minCol minCol None n r o
+                     ((pre ++ pend_str pending) ++ mstr)%string Hsk' Hg Hro) as [o' [Ho' [Hwf' [rb [Hrb Hsp]]]]].
         + intros c Hc. discriminate.
-        + exists o'. repeat split; [exact Ho'|exact Hne'|exact Hwf'|].
-          exists rb. split; [exact Hrb|exact Hsp]. }
+        + exists o'. repeat split; [exact Ho'|exact Hwf'|].
+          exists rb. split; [exact Hrb|].
+          rewrite Hm. cbn [pend_str] in Hsp. rewrite !sapp_assoc in Hsp. exact Hsp. }
     destruct (slen line =? 0) eqn:Elen.
     + (* empty line: straight to NEXT *)
-      apply (Hcont false need rest offs1).
-      * intros _. repeat split.
-      * discriminate.
+      apply (Hcont need rest offs1).
       * exists EmptyString. split; [reflexivity|]. rewrite sapp_nil_r. exact Hr1.
       * exact Hok.
     + destruct (adjust_col line col need rest) as [col2|] eqn:Eadj; [|discriminate].
@@ -333,31 +395,99 @@ Proof.
         destruct (scan_line (sdrop (Z.to_nat (col2 - 1)) line) (Z.of_nat k + 1) col2 need rest offs1) as [o|n4 r4 o] eqn:S;
         try contradiction.
       * destruct Hscan as [E1 [E2 [Hf [Ht Hex]]]]. subst n4 r4.
-        apply (Hcont m n r o Hf Ht Hex Hok).
+        apply (Hcont n r o Hex Hok).
       * destruct Hscan as [Hne [Hwf [rb [Hrb Hfe]]]].
-        exists o. repeat split; [exact Hne|exact Hwf|].
+        exists o. repeat split; [exact Hwf|].
         exists rb. split; [exact Hrb|].
         rewrite <- sapp_assoc. apply spell_match_exact. exact Hfe.
 Qed.
 
-(** ** The node-level theorem *)
+(** ** The node-level theorems *)
+
+Lemma reads_nil lines : reads lines [] EmptyString.
+Proof. split; [constructor|]. exists EmptyString. split; reflexivity. Qed.
+
+Lemma pend_ok_none lines k prev : pend_ok lines k prev None.
+Proof. intros c Hc. discriminate. Qed.
+
+Lemma new_position_range_entry lines n minCol need rest :
+  sn_value n = String need rest ->
+  new_position_range lines n minCol =
+  match npr_entry lines n minCol need rest with Ok [] => Ok (fallback n) | r => r end.
+Proof. intros Ev. unfold new_position_range, npr_entry. rewrite Ev. reflexivity. Qed.
+
+Lemma npr_entry_sound lines n minCol need rest o :
+  npr_entry lines n minCol need rest = Ok o ->
+  exists done_ left_, (String need rest = done_ ++ left_)%string /\ reads lines o done_.
+Proof.
+  unfold npr_entry. intros H.
+  destruct (sn_block n).
+  - destruct (sn_line n + 1 <=? 0) eqn:E; [discriminate|]. apply Z.leb_gt in E.
+    replace (sn_line n + 1) with (Z.of_nat (Z.to_nat (sn_line n)) + 1) in H by lia.
+    change false with (brk_of None) in H.
+    destruct (npr_loop_sound _ lines (Z.to_nat (sn_line n)) 0 minCol minCol None need rest [] EmptyString o
+                eq_refl (reads_nil lines) (pend_ok_none _ _ _) H) as [d [l [Hdl Hr]]].
+    exists d, l. split; [|exact Hr]. rewrite <- Hdl. reflexivity.
+  - destruct (sn_line n <=? 0) eqn:E; [discriminate|]. apply Z.leb_gt in E.
+    cbv zeta in H.
+    replace (sn_line n) with (Z.of_nat (Z.to_nat (sn_line n - 1)) + 1) in H at 2 by lia.
+    change false with (brk_of None) in H.
+    destruct (npr_loop_sound _ lines (Z.to_nat (sn_line n - 1)) 0 _ minCol None need rest [] EmptyString o
+                eq_refl (reads_nil lines) (pend_ok_none _ _ _) H) as [d [l [Hdl Hr]]].
+    exists d, l. split; [|exact Hr]. rewrite <- Hdl. reflexivity.
+Qed.
+
+(** UNCONDITIONAL: for every line table, node and minColumn, if [NewPositionRange] returns (no panic) then either
+    it found nothing and returned the one-column fallback, or its positions are well formed, inside the file and
+    read back — in order, up to folding — a PREFIX of the value. *)
+Theorem positions_spell_prefix : forall lines n minCol pos,
+  new_position_range lines n minCol = Ok pos ->
+  pos = fallback n \/
+  (wf pos /\ exists rb done_ left_,
+      read_back lines pos = Some rb /\ fold_eq rb done_ = true /\ sn_value n = (done_ ++ left_)%string).
+Proof.
+  intros lines n minCol pos H.
+  destruct (sn_value n) as [|need rest] eqn:Ev.
+  - unfold new_position_range in H. rewrite Ev in H. injection H as <-. left. reflexivity.
+  - rewrite (new_position_range_entry _ _ _ _ _ Ev) in H.
+    destruct (npr_entry lines n minCol need rest) as [o|w] eqn:E; [|discriminate].
+    destruct (npr_entry_sound _ _ _ _ _ _ E) as [d [l [Hdl [Hwf [rb [Hrb Hfe]]]]]].
+    destruct o as [|p o'].
+    + injection H as <-. left. reflexivity.
+    + injection H as <-. right. split; [exact Hwf|]. exists rb, d, l. repeat split; assumption.
+Qed.
+
+Lemma read_back_nil lines : read_back lines [] = Some EmptyString.
+Proof. reflexivity. Qed.
 
 Theorem node_ok_spells : forall lines n minCol,
   node_ok lines n minCol = true ->
   exists pos, new_position_range lines n minCol = Ok pos /\
               pos <> [] /\ wf pos /\ spells lines pos (sn_value n).
 Proof.
-  intros lines n minCol H. unfold node_ok in H. unfold new_position_range.
+  intros lines n minCol H. unfold node_ok in H.
   destruct (sn_value n) as [|need rest] eqn:Ev; [discriminate|].
-  apply andb_true_iff in H. destruct H as [Hl Hok]. apply Z.leb_le in Hl.
-  replace (sn_line n <=? 0) with false by (symmetry; apply Z.leb_gt; lia).
-  destruct (npr_loop_spec (skipn (Z.to_nat (sn_line n - 1)) lines) lines (Z.to_nat (sn_line n - 1)) 0
-                          (sn_col n) minCol None need rest [] EmptyString eq_refl Hok) as [o [Ho [Hne [Hwf [rb [Hrb Hsp]]]]]].
-  - split; [constructor|]. exists EmptyString. split; reflexivity.
-  - reflexivity.
-  - intros c Hc. discriminate.
-  - replace (Z.of_nat (Z.to_nat (sn_line n - 1)) + 1) with (sn_line n) in Ho by lia.
-    rewrite Ho. destruct o as [|p o']; [contradiction|].
-    exists (p :: o'). repeat split; [exact Hne|exact Hwf|].
-    exists rb. split; [exact Hrb|exact Hsp].
+  apply andb_true_iff in H. destruct H as [Hnn H]. apply negb_true_iff in Hnn.
+  rewrite (new_position_range_entry _ _ _ _ _ Ev).
+  assert (Hmain : exists o, npr_entry lines n minCol need rest = Ok o /\ wf o /\
+                    exists rb, read_back lines o = Some rb /\ spell_match rb (String need rest) = true).
+  { unfold npr_entry. destruct (sn_block n).
+    - apply andb_true_iff in H. destruct H as [Hl Hok]. apply Z.leb_le in Hl.
+      replace (sn_line n + 1 <=? 0) with false by (symmetry; apply Z.leb_gt; lia).
+      destruct (npr_loop_spec _ lines (Z.to_nat (sn_line n)) 0 minCol minCol None need rest [] EmptyString
+                  eq_refl Hok (reads_nil lines) (pend_ok_none _ _ _)) as [o [Ho [Hwf [rb [Hrb Hsp]]]]].
+      replace (Z.of_nat (Z.to_nat (sn_line n)) + 1) with (sn_line n + 1) in Ho by lia.
+      cbn [brk_of] in Ho. exists o. repeat split; [exact Ho|exact Hwf|]. exists rb. split; [exact Hrb|exact Hsp].
+    - apply andb_true_iff in H. destruct H as [Hl Hok]. apply Z.leb_le in Hl.
+      replace (sn_line n <=? 0) with false by (symmetry; apply Z.leb_gt; lia).
+      cbv zeta in Hok |- *.
+      destruct (npr_loop_spec _ lines (Z.to_nat (sn_line n - 1)) 0 _ minCol None need rest [] EmptyString
+                  eq_refl Hok (reads_nil lines) (pend_ok_none _ _ _)) as [o [Ho [Hwf [rb [Hrb Hsp]]]]].
+      replace (Z.of_nat (Z.to_nat (sn_line n - 1)) + 1) with (sn_line n) in Ho by lia.
+      cbn [brk_of] in Ho. exists o. repeat split; [exact Ho|exact Hwf|]. exists rb. split; [exact Hrb|exact Hsp]. }
+  destruct Hmain as [o [Ho [Hwf [rb [Hrb Hsp]]]]]. rewrite Ho.
+  destruct o as [|p o'].
+  - (* impossible: an empty read-back spells only values made of line breaks *)
+    rewrite read_back_nil in Hrb. injection Hrb as <-. cbn [spell_match] in Hsp. congruence.
+  - exists (p :: o'). repeat split; [discriminate|exact Hwf|]. exists rb. split; [exact Hrb|exact Hsp].
 Qed.
